@@ -345,6 +345,13 @@ package table
 //@   claims step
 //@   loop 0 step !match ==> len(newComms) == header(len(newComms)) + 1 && newComms[len(newComms)-1] == comm
 //@   loop 0 step match ==> len(newComms) == header(len(newComms))
+//@ func RegexpRemoveCommunities
+//@   requires path != nil
+//@   claims step at-call
+//@   loop 0 step !match ==> len(newComms) == header(len(newComms)) + 1 && newComms[len(newComms)-1] == comm
+//@   loop 0 step match ==> len(newComms) == header(len(newComms))
+// ... and the list that is built is memory of this call, not the stored attribute's backing array
+//@   at-call path.SetCommunities(newComms, true) requires fresh(newComms) || len(newComms) == 0
 //@ func RegexpRemoveLargeCommunities
 //@   requires path != nil
 //@   claims step
@@ -675,6 +682,15 @@ package table
 //@   at-return requires asAttr != nil && !mkAs4 ==> len(msg.PathAttributes) == len(ps)
 //@   at-return requires asAttr != nil && mkAs4 && len(as4Params) > 0 ==> len(msg.PathAttributes) == len(ps) + 1
 //@   at-return requires asAttr != nil && len(as4Params) == 0 ==> len(msg.PathAttributes) == len(ps)
+
+// the AGGREGATOR sent to a 2-octet-AS peer: an AS above 65535 - every one of them, 65536 included - becomes AS_TRANS,
+// any other AS is sent as it is
+//@ props C14
+//@ func UpdatePathAggregator2ByteAs
+//@   requires msg != nil
+//@   claims at-call
+//@   at-call bgp.NewPathAttributeAggregator(uint16(bgp.AS_TRANS), addr) requires agg.Value.AS > 65535
+//@   at-call bgp.NewPathAttributeAggregator(uint16(agg.Value.AS), addr) requires agg.Value.AS <= 65535
 
 // =============================================================================================
 // C12 - graceful restart: what the Adj-RIB-In sweep at End-of-RIB / timer expiry withdraws
